@@ -703,7 +703,7 @@ example : getLoadedNamespaces (run demoFS 4 (Repo.init demoPath) [.require "Foo"
     = ["Bar".toList, "Foo".toList] := by decide
 -- hypotheses of C17_exact / C17_latest are met by the initial state
 example : getRegisteredStatus (Repo.init demoPath) "Foo".toList (some "1.9".toList) false = .absent false := by decide
--- C17_inv_partial: the guard and staleKey = false hold on a history with a load from memory
+-- C17_inv_partial: `Guarded` and staleKey = false hold on a history with a load from memory
 example : (run demoFS 4 (Repo.init demoPath)
     [.require "Foo".toList none false, .load ⟨"Baz".toList, "1.0".toList, ["Bar-1.0".toList]⟩ false,
      .require "Foo".toList (some "1.9".toList) false, .prepend "/c".toList]).staleKey = false := by decide
